@@ -168,7 +168,22 @@ fn run_body(h: &mut H, r: &mut Rng, prof: &Profile) {
             h.op_drop(victim, fault);
                 }
             }
-        } else if c < 97 {
+        } else if c < 96 {
+            // drain one archetype completely (various key kinds), then create again: emptied-by-history
+            // archetypes are where version / free-list / clone shortcuts hide
+            let ai = pick_arch(r);
+            let ents: Vec<Tok> = live_of(h, wi).into_iter().filter(|t| arch_of_id((t.0 & 0xff) as u8) == Some(ai)).collect();
+            if ents.len() <= 4 {
+                for t in ents {
+                    let k = key_spec(r, Key::Ent(t));
+                    h.begin("destroy");
+                    h.op_destroy(wi, KeySpec { at: None, ..k }, None);
+                }
+                let p: Vec<i64> = (0..32).map(|i| payload * 100 + i).collect();
+                h.begin("create");
+                h.op_create(wi, ai, &p, r.below(4) as u8, r.chance(50));
+            }
+        } else if c < 98 {
             let scope = if r.chance(50) { None } else { Some(r.below(NARCH as u64) as usize) };
             h.begin("clear_events");
             h.op_clear_events(wi, scope);
